@@ -30,7 +30,10 @@ RUNPP = "pandapower.run:runpp"
 KW_KEYS = ["trafo3w_losses", "v_debug", "delta_q", "switch_rx_ratio", "numba", "init_vm_pu", "init_va_degree",
            "neglect_open_switch_branches", "only_v_results", "use_umfpack", "permc_spec", "lightsim2grid",
            "tdpf_update_r_theta",
+           "delta",                    # the name under which the runpp argument delta_q is stored (standard parameter of set_user_pf_options)
            "zz_generic_option"]        # occurs nowhere in the code: stands for any other option name
+# runpp arguments whose option is stored under another name: passing the argument must override the stored option of that name as well
+ALIAS = {"delta_q": "delta"}
 
 
 def configure(it):
@@ -138,10 +141,10 @@ def run(vc):
     from pyvc.vc import Obligation
 
     # (A) non-interference of the stored entry for k when k is passed
-    for k in keys:
-        fresh_up = z3.Bool(f"stored'[{k}]")
-        fresh_val = z3.Const(f"stored_value'[{k}]", PV)
-        sub = [(up[k], fresh_up), (uval[k], fresh_val)]
+    for k, sk in [(k, k) for k in keys] + [(k, a) for k, a in ALIAS.items() if k in keys and a in keys]:
+        fresh_up = z3.Bool(f"stored'[{sk}]")
+        fresh_val = z3.Const(f"stored_value'[{sk}]", PV)
+        sub = [(up[sk], fresh_up), (uval[sk], fresh_val)]
         for pj in paths:
             hyps_j = [z3.substitute(h, *sub) for h in pj["hyps"]]
             res_j = {lab: z3.substitute(t, *sub) for lab, t in pj["res"].items()}
@@ -183,12 +186,13 @@ def run(vc):
                     else:
                         goal_parts.append(pi["res"][lab] == res_j[lab])
                 goal = z3.And(*goal_parts)
-                ob = Obligation(f"{PROP}/runpp/passed-overrides-stored[{k}]@p{pi['index']}xp{pj['index']}", PROP, "ensures",
+                lab_k = k if sk == k else f"{k}->stored {sk}"
+                ob = Obligation(f"{PROP}/runpp/passed-overrides-stored[{lab_k}]@p{pi['index']}xp{pj['index']}", PROP, "ensures",
                                 hyps, goal, pi["fns"], pi["index"],
-                                note=f"explicitly passed '{k}': result independent of user_pf_options['{k}']",
-                                watch={"arg": paths[0]["arg"][k], "stored": uval[k], "stored_alt": fresh_val,
-                                       "stored_present": up[k], "stored_alt_present": fresh_up},
-                                meta=dict(label=f"passed-overrides-stored[{k}]", harness="runpp", key=k,
+                                note=f"explicitly passed '{k}': result independent of user_pf_options['{sk}']",
+                                watch={"arg": paths[0]["arg"][k], "stored": uval[sk], "stored_alt": fresh_val,
+                                       "stored_present": up[sk], "stored_alt_present": fresh_up},
+                                meta=dict(label=f"passed-overrides-stored[{lab_k}]", harness="runpp", key=k, stored_key=sk,
                                           defaults=paths[0]["defaults"]))
                 vc.obligations.append(ob)
     # cover: a stored option does take effect when the argument is not passed
@@ -233,7 +237,7 @@ ALT = {"algorithm": "bfsw", "calculate_voltage_angles": False, "init": "flat", "
        "voltage_depend_loads": False, "consider_line_temperature": True, "distributed_slack": True, "tdpf": False,
        "tdpf_delay_s": None, "trafo3w_losses": "star", "v_debug": True, "delta_q": 1e-3, "switch_rx_ratio": 3,
        "numba": False, "neglect_open_switch_branches": True, "only_v_results": True, "use_umfpack": False,
-       "permc_spec": "NATURAL", "lightsim2grid": False, "tdpf_update_r_theta": False, "zz_generic_option": 42}
+       "permc_spec": "NATURAL", "lightsim2grid": False, "tdpf_update_r_theta": False, "delta": 25., "zz_generic_option": 42}
 
 
 def _decode(v):
@@ -284,6 +288,7 @@ from pandapower.run import runpp, set_user_pf_options
 import inspect
 
 key = {k!r}
+stored_key = {ob.meta.get("stored_key", k)!r}     # the name under which the option of this argument is stored
 sig = inspect.signature(runpp)
 default = sig.parameters[key].default if key in sig.parameters else None
 model_arg, model_arg_ok = {arg!r}, {ok!r}
@@ -294,12 +299,12 @@ if model_arg_ok:
 if key in sig.parameters:
     candidates.append(default)
 candidates.append(alts.get(key))
-stored_candidates = [alts.get(key), default, 123]
+stored_candidates = [alts.get(stored_key), default, 123]
 
 def options_after(passed_value, stored, with_store):
     net = nw.example_simple()
     if with_store:
-        set_user_pf_options(net, **{{key: stored}})
+        set_user_pf_options(net, **{{stored_key: stored}})
     try:
         runpp(net, **{{key: passed_value}})
         return ("return", dict(net._options))
@@ -336,7 +341,7 @@ for pv in candidates:
         b = options_after(pv, sv, False)
         if not same(a, b):
             diff = {{x: (a[1].get(x), b[1].get(x)) for x in set(a[1]) | set(b[1]) if a[1].get(x) != b[1].get(x)}}
-            print("VIOLATION REPRODUCED: runpp(net, %s=%r) with user_pf_options[%r]=%r" % (key, pv, key, sv))
+            print("VIOLATION REPRODUCED: runpp(net, %s=%r) with user_pf_options[%r]=%r" % (key, pv, stored_key, sv))
             print("  exit with stored option: %s ; without: %s ; differing options: %r" % (a[0], b[0], diff))
             sys.exit(1)
 print("not reproduced for key", key)
